@@ -161,3 +161,11 @@ def percent(ctx, kind, L):
     want = dict(rss=rss, vms=vms, shared=shared, text=text, lib=lib, data=data, dirty=dirty,
                 uss=(S("Private_Clean") + S("Private_Dirty") + S("Private_Hugetlb")) * 1024, pss=S("Pss") * 1024, swap=S("Swap") * 1024)[memtype]
     ctx.prove(exc is None and ctx.eq(r, ctx.div(want * 100, TOTAL_KB * 1024)), "memory_percent-formula")
+    # the total can change while the program runs (memory hot-add, balloon driver, a container limit): the next call divides by the new one
+    with k.installed():
+        p = psutil.Process(77)
+        p.memory_percent(memtype)
+        k.files["/proc/meminfo"] = k.files["/proc/meminfo"].replace(f"MemTotal: {TOTAL_KB} kB", f"MemTotal: {2 * TOTAL_KB} kB")
+        psutil.virtual_memory()
+        r2 = p.memory_percent(memtype)
+    ctx.prove(ctx.eq(r2, ctx.div(want * 100, 2 * TOTAL_KB * 1024)), "memory_percent-formula", detail="after MemTotal doubled")
